@@ -3,7 +3,7 @@ From Coq Require Import ZArith QArith Qreals List Reals Bool Lia.
 From Coquelicot Require Import Complex.
 From PyqspV Require Import Base.Ops Model.LPolyM Model.LAlgM Model.QInst Model.ResponseM Model.SymQspM Model.Checkers
   Theory.RingK Theory.LPolyT Theory.LAlgT Theory.CplxT Theory.RespT Theory.QC Theory.CertT Theory.C01T Theory.C06T
-  Theory.CornerT Theory.SymQspT Theory.SymCertT.
+  Theory.CornerT Theory.SymQspT Theory.SymCertT Theory.TargetBoundT.
 Import ListNotations.
 Open Scope R_scope.
 
@@ -37,3 +37,14 @@ Theorem C13_protocol_consistent {D} (O : Ops D) odd r0 hist :
   fold_left (proto_update O) hist (proto_init O odd r0) = proto_init O odd (last hist r0).
 Proof. exact (update_invariant O odd r0 hist). Qed.
 Print Assumptions C13_protocol_consistent.
+
+(* the hypothesis of the property makes the request feasible: a target of coefficient 1-norm at most 0.9
+   (the object the certificate above compares the imaginary response with) is at most 0.9 in modulus
+   on the whole unit circle, i.e. on all of [-1,1] — for every parity, every length, every coefficient vector *)
+Theorem C13_target_admissible odd c theta : (Qnorm1 c <= 9 # 10)%Q ->
+  Cmod (evx CR (cis theta) (cis (- theta)) (lpQ2C (cheb_to_laurent odd c))) <= 9 / 10.
+Proof. exact (target_admissible odd c theta). Qed.
+Print Assumptions C13_target_admissible.
+
+Example C13_target_admissible_nonvacuous : (Qnorm1 [3 # 10; -(2 # 10); 1 # 10] <= 9 # 10)%Q.
+Proof. vm_compute. discriminate. Qed.
